@@ -379,6 +379,18 @@ def runIfSeq (singleSequence : Bool) (es : List (Element Value)) : Except Exc (E
   | true, [e] => .ok e
   | _, es => (mkSequence es).map Seq.toElement
 
+/-- the loop over `seqs` of `Split.__init__`: `_get_seq_with_type` turns a tuple without fill/compute
+(fill/request) elements into `Sequence(*seq)` -/
+def mkBranches : List (List (Element Value)) → Except Exc (List (Seq Value))
+  | [] => .ok []
+  | es :: ess =>
+    match mkSequence es with
+    | .error e => .error e
+    | .ok s =>
+      match mkBranches ess with
+      | .error e => .error e
+      | .ok ss => .ok (s :: ss)
+
 mutual
 /-- the Python object denoted by a `Spec` (constructors may raise) -/
 def Spec.toElement : Spec → Except Exc (Element Value)
@@ -410,7 +422,11 @@ def Spec.toElement : Spec → Except Exc (Element Value)
     -- `_get_seq_with_type`: a tuple without fill/compute elements becomes `Sequence(*seq)`;
     -- then the `bufsize` test; `Split` has `run` and `__call__` (a generator that raises
     -- `LenaAttributeError` unless every sequence is a `Source`)
-    match Spec.toBranches branches with
+    -- (the elements of all branches are built before `Split.__init__` converts the first tuple)
+    match Spec.toElementss branches with
+    | .error e => .error e
+    | .ok ess =>
+    match mkBranches ess with
     | .error e => .error e
     | .ok bs =>
       if bufsize = some 0 then .error .lenaValueError
@@ -432,18 +448,15 @@ def Spec.toElements : List Spec → Except Exc (List (Element Value))
       match Spec.toElements ss with
       | .error e => .error e
       | .ok els => .ok (el :: els)
-def Spec.toBranches : List (List Spec) → Except Exc (List (Seq Value))
+def Spec.toElementss : List (List Spec) → Except Exc (List (List (Element Value)))
   | [] => .ok []
   | b :: bs =>
     match Spec.toElements b with
     | .error e => .error e
     | .ok es =>
-      match mkSequence es with
+      match Spec.toElementss bs with
       | .error e => .error e
-      | .ok s =>
-        match Spec.toBranches bs with
-        | .error e => .error e
-        | .ok ss => .ok (s :: ss)
+      | .ok ess => .ok (es :: ess)
 end
 
 mutual
